@@ -112,6 +112,7 @@ _TABLE = [
     ("from and to token can not same", "same_token"),
     ("from or to token not in pool", "foreign_token"),
     ("Not enough balance to add liquidity", "value_beyond_balance"),
+    ("tick should in tick range", "tick_out_of_range"),
     ("position not exist or has transferred out", "position_missing_or_out"),
     ("position not exist or has not transferred", "position_missing_or_in"),
     ("Can not supplied as collateral", "not_collateral_token"),
@@ -441,16 +442,6 @@ def _(g):
     lo, hi, sp, cur = _uni_ticks(g)
     b, q = _bq(g)
     return [T(O("uni.add_by_value", g.name, {"lo": hi, "hi": g.rng.choice([lo, hi]), "value": {"f": f"wallet:{q}", "x": "0.1"}}))]
-
-
-@entry("uni.add_by_value:wallet_drained_between_estimate_and_add", "uni", ("wallet_short", "value_beyond_balance"))
-def _(g):
-    # the whole balance is asked for (value None): the swap constituent runs first, the add constituent then needs every
-    # last unit; with one token almost absent the add can be refused after the swap went through
-    lo, hi, sp, cur = _uni_ticks(g)
-    b, q = _bq(g)
-    t = g.rng.choice([b, q])
-    return [drain(t, g.rng.choice(["0", "0.000001"])), T(O("uni.add_by_value", g.name, {"lo": lo, "hi": hi, "value": None})), refill(t)]
 
 
 @entry("uni.even_rebalance:skewed_price", "uni", "wallet_short")
